@@ -100,6 +100,10 @@ Lemma mu_take v s o : mu (take v s o) = mu s.
 Proof. unfold take. destruct (v_mutex v); reflexivity. Qed.
 Lemma mu_release v s : mu (release v s) = mu s.
 Proof. unfold release. destruct (v_mutex v); reflexivity. Qed.
+Lemma mu_ptake v s o : mu (ptake v s o) = mu s.
+Proof. unfold ptake. destruct (v_pmutex v); reflexivity. Qed.
+Lemma mu_prelease v s : mu (prelease v s) = mu s.
+Proof. unfold prelease. destruct (v_pmutex v); reflexivity. Qed.
 
 Lemma mu_set_w_lt s w x :
   w < nw s -> wmeasure x < wmeasure (wk s w) -> mu (set_w s w x) < mu s.
@@ -130,7 +134,7 @@ Proof.
     dstep Hstep; inversion Hstep; subst; clear Hstep.
     + pose proof (mu_set_c s c CIdle (ltb_lt' _ _ Heqb)) as Hm.
       rewrite Heqc0 in Hm. cbn [cmeasure] in Hm. lia.
-    + rewrite mu_take.
+    + rewrite mu_ptake.
       pose proof (mu_set_c (set_paused s true) c (CPRange (seq 0 (nw s))) (ltb_lt' _ _ Heqb)) as Hm.
       cbn [nw ct set_paused] in Hm. rewrite Heqc0 in Hm. cbn [cmeasure] in Hm.
       rewrite seq_length in Hm. rewrite mu_set_paused in Hm. lia.
@@ -153,7 +157,7 @@ Proof.
       specialize (Hw Hle). lia.
   - (* LPauseEnd *)
     dstep Hstep; inversion Hstep; subst; clear Hstep.
-    rewrite mu_release.
+    rewrite mu_prelease.
     pose proof (mu_set_c s c CIdle (ltb_lt' _ _ Heqb)) as Hm.
     rewrite Heqc0 in Hm. cbn [cmeasure length] in Hm. lia.
   - (* LResumeBegin *)
@@ -203,6 +207,10 @@ Proof.
     dstep Hstep; inversion Hstep; subst; clear Hstep. wstep.
   - (* LUnsubCloseR *)
     dstep Hstep; inversion Hstep; subst; clear Hstep; rewrite ?mu_set_holder; wstep.
+  - (* LDone *)
+    dstep Hstep; inversion Hstep; subst; clear Hstep. wstep.
+  - (* LBusyStop *)
+    dstep Hstep; inversion Hstep; subst; clear Hstep. wstep.
 Qed.
 
 (* ---- executions ---- *)
